@@ -13,9 +13,24 @@ base = arg('--base', meta.get('base_commit', 'HEAD'))
 verif = os.path.dirname(os.path.dirname(os.path.abspath(__file__)))
 wt = tempfile.mkdtemp(prefix='harmless_', dir='/tmp'); os.rmdir(wt)
 try:
-  subprocess.run(['git', '-C', '/repo', 'worktree', 'add', '--detach', wt, base], check=True, capture_output=True)
+  subprocess.run(['git', '-C', '/repo', 'worktree', 'add', '--detach', wt, 'HEAD'], check=True, capture_output=True)
+  if '--base' not in sys.argv and subprocess.run(['git', '-C', wt, 'apply', '--check', os.path.join(d, 'patch.diff')],
+                                                  capture_output=True).returncode == 0:
+    base = subprocess.check_output(['git', '-C', '/repo', 'rev-parse', '--short', 'HEAD'], text=True).strip()
+  else:   # the rewrite was written against an older base and touches lines a later fix: commit changed
+    subprocess.run(['git', '-C', wt, 'checkout', '-q', '--detach', base], check=True)
   subprocess.run(['git', '-C', wt, 'apply', os.path.join(d, 'patch.diff')], check=True)
   env = dict(os.environ, VERIF_REPO=wt, VERIF_SEED=seed)
+  # findings repaired by a fix: commit that this (older) base does not contain are still present there
+  unfixed = []
+  for f in json.load(open(os.path.join(verif, 'known_findings.json')))['findings']:
+    if f.get('property') == pid and f.get('status') == 'fixed':
+      for c in str(f.get('commit') or '').replace('+', ',').split(','):
+        c = c.strip()
+        if c and subprocess.run(['git', '-C', '/repo', 'merge-base', '--is-ancestor', c, base]).returncode != 0:
+          unfixed.append(f['key'])
+  if unfixed:
+    env['VERIF_UNFIXED_IN_BASE'] = ','.join(sorted(set(unfixed)))
   p = subprocess.run(['/venv/bin/python', 'harness/check.py', pid, '--tier', tier], cwd=verif, env=env,
                      capture_output=True, text=True, timeout=3600)
   lines = [l for l in p.stdout.splitlines() if l.startswith(('VIOLATION', 'KNOWN-FINDING', pid, 'INFRA'))]
